@@ -284,6 +284,8 @@ func findNextNodeAfterComment(file *ast.File, commentPos token.Pos) token.Pos {
 	// statement is covered, not only a diagnostic located at its very first token.
 	var nextPos = token.NoPos
 	var nextEnd = token.NoPos
+	// End of the innermost node that contains the comment (a block, a literal, a call...)
+	var enclosingEnd = decl.End()
 
 	ast.Inspect(decl, func(n ast.Node) bool {
 		if n == nil {
@@ -292,6 +294,9 @@ func findNextNodeAfterComment(file *ast.File, commentPos token.Pos) token.Pos {
 
 		// Skip nodes that start before or at comment position
 		if n.Pos() <= commentPos {
+			if n.End() > commentPos && n.End() < enclosingEnd {
+				enclosingEnd = n.End()
+			}
 			return true
 		}
 
@@ -305,6 +310,13 @@ func findNextNodeAfterComment(file *ast.File, commentPos token.Pos) token.Pos {
 
 		return true
 	})
+
+	// A comment that is the last thing in its body has no following statement there: the next
+	// node belongs to the surroundings (the next literal element, the else branch, a later
+	// statement of the outer body) and must not be covered
+	if nextPos != token.NoPos && nextPos >= enclosingEnd {
+		return token.NoPos
+	}
 
 	return nextEnd
 }
